@@ -43,8 +43,8 @@ m("C01", "frag-contiguity-x-only", FRAG, 'state["fragment_x_offset"] != expected
 m("C01", "odd-fields-check-off", STREAM, 'if state["_num_pictures_in_sequence"] % 2 != 0:', 'if False:')
 m("C01", "version-minimal-skip", ASSERT, "    if major_version > expected_major_version:", "    if major_version > expected_major_version + 1:")
 # ---- C02
-m("C02,C25", "revert-D1", STREAM, "                true_previous_parse_offset,\n            )", "                true_parse_offset,\n            )")
-m("C02,C25", "revert-D2", FRAG, 'if "_picture_initial_fragment_offset" not in state:', 'if False:')
+m("C02", "revert-D1", STREAM, "                true_previous_parse_offset,\n            )", "                true_parse_offset,\n            )")
+m("C02", "revert-D2", FRAG, 'if "_picture_initial_fragment_offset" not in state:', 'if False:')
 m("C02", "no-profile-guard", STREAM, 'if "profile" in state:', 'if True:')
 m("C02", "explain-bad-key", "vc2_conformance/decoder/exceptions.py", "class MissingNextParseOffset(ConformanceError):",
   "class MissingNextParseOffset(ConformanceError):\n    def bitstream_viewer_hint(self):\n        return '{cmd} {file} {nosuchkey}'\n")
